@@ -959,6 +959,13 @@ impl Element {
                         None
                     };
 
+                    // sub-elements of an element with mixed content are replaced too; they must be removed
+                    // properly so that they are unlinked and dropped from the caches of the model
+                    let sub_elements: Vec<Element> = self.sub_elements().collect();
+                    for sub_element in sub_elements {
+                        self.remove_sub_element(sub_element)?;
+                    }
+
                     // update the character data
                     {
                         let mut element = self.0.write();
